@@ -1397,7 +1397,9 @@ bool Interpret::is_top_level_assertion(PTRef ref) {
 }
 
 int Interpret::get_assertion_index(PTRef ref) {
-    for (int i = 0; i < assertions.size(); ++i) {
+    // The list also holds the assertions of popped levels: a formula that was popped and asserted again must be
+    // found at its most recent position, which is the partition index the solver uses for it
+    for (int i = assertions.size() - 1; i >= 0; --i) {
         if (ref == assertions[i]) { return i;}
     }
     return -1;
